@@ -6,11 +6,12 @@ CFG = {
     "theorems": ["Parsley.C01.pipeline_stages_never_panic_partial",
                  "Parsley.C16.parse_never_panics", "Parsley.C16.depth_restored", "Parsley.C05.indirect_never_panics",
                  "Parsley.C13.table_never_panics", "Parsley.C13.dictinfo_never_panics", "Parsley.C13.parseStream_never_panics",
-                 "Parsley.C13.rows_terminate", "Parsley.C07.predictor_never_panics", "Parsley.C07.filter_never_panics"],
+                 "Parsley.C13.rows_terminate", "Parsley.C07.predictor_never_panics", "Parsley.C07.filter_never_panics",
+                 "Parsley.C14.objstm_never_panics", "Parsley.C11.dom_never_panics", "Parsley.C11.dom_terminates",
+                 "Parsley.C11.resolve_fuel_sufficient", "Parsley.C09.machine_steps_le_fuel", "Parsley.C09.machine_fuel_independent"],
     "partial": {"Parsley.C01.pipeline_stages_never_panic_partial":
                 "stage-by-stage: object parser, indirect objects / stream framing, xref table, xref stream dictionary and rows, predictor reversal "
-                "(object streams, filters, type-check loop, page DOM and text extraction have their own no-panic/termination theorems under C14, C06, C09, C11, C12 "
-                "and are added to this obligation as those properties are integrated). NOT covered by any theorem: the composition glue of "
+                "object streams, page DOM construction (terminates within |defs|+1 iterations); the type-check loop's fuel-independence/step theorems (C09) and the filter glue (C06) and text-extraction loop (C12) theorems are audited under their own properties. NOT covered by any theorem: the composition glue of "
                 "pdf_traverse_xref.rs and src/bin/pdf_printer.rs between the stages, the machine stack actually consumed, zlib/jpeg-decoder/regex internals, "
                 "allocation failure, wall-clock time. Those are exercised only by running the real binary (below)."},
     "n": {"quick": 1200, "thorough": 60000},
